@@ -374,6 +374,24 @@ func cmdCheck(args []string) int {
 	if P == "C15" || P == "ALL" {
 		ex.objinvStability()
 	}
+	if P == "C11" || P == "C15" || P == "ALL" {
+		// lock order: one obligation per cycle in "acquired while held" (collected over all verified functions)
+		for from, tos := range ex.lockEdges {
+			for to, where := range tos {
+				ex.notes[fmt.Sprintf("LOCK-ORDER %s held while %s is acquired (%s)", from, to, where)] = true
+			}
+		}
+		lst := &State{ex: ex, heap: map[string]string{}, cnt: map[string]string{}, published: map[string]bool{}}
+		ex.curKey = "lock-order"
+		cycles := ex.lockOrderCycles()
+		if len(cycles) == 0 {
+			ob := ex.obligeRaw(lst, "lock-order", "lock-order/acyclic", []string{"C11.lock_order_acyclic", "C15.lock_order_acyclic"}, "true")
+			ob.Trivial = false
+		}
+		for i, c := range cycles {
+			ex.obligeRaw(lst, "lock-order", fmt.Sprintf("lock-order/cycle#%d: %s", i, c), []string{"C11.lock_order_acyclic", "C15.lock_order_acyclic"}, "false")
+		}
+	}
 	// lemmas
 	for _, lm := range specs.Lemmas {
 		has := false
